@@ -192,6 +192,25 @@ impl Report {
             first = false;
             let _ = write!(o, "{}: {}", jesc(k), v.len());
         }
+        // per-kind hash lists so that the driver can take exact unions across shards
+        o.push_str("},\n \"cells_by_kind\": {");
+        first = true;
+        for (k, v) in &self.cell_kinds {
+            if !first {
+                o.push(',');
+            }
+            first = false;
+            let _ = write!(o, "{}: [", jesc(k));
+            let mut f2 = true;
+            for c in v {
+                if !f2 {
+                    o.push(',');
+                }
+                f2 = false;
+                let _ = write!(o, "\"{:x}\"", c);
+            }
+            o.push(']');
+        }
         o.push_str("},\n \"samples\": [");
         first = true;
         for s in &self.samples {
